@@ -138,3 +138,82 @@ func refInteropUnit(libIsClient bool, suite uint16) harness.Unit {
 		}
 	}}
 }
+
+// refSizesUnit: payload sizes around the internal buffer capacities of the record layer (powers of
+// two minus the overhead of either suite), written by the library as single Writes to the reference
+// peer and sent by the reference peer as single records to the library; both streams must arrive
+// intact and every record must authenticate under the reference.
+func refSizesUnit(libIsClient bool, suite uint16) harness.Unit {
+	return harness.Unit{Name: fmt.Sprintf("reference-peer-sizes/library-client=%v/%04x", libIsClient, suite), Run: func(c *harness.Ctx) {
+		p := tlsk.Get()
+		var sizes []int
+		for k := uint(9); k <= 14; k++ {
+			for n := 1<<k - 72; n <= 1<<k+8; n++ {
+				sizes = append(sizes, n)
+			}
+		}
+		var libWrites [][]byte
+		var libStream, refStream []byte
+		for i, n := range sizes {
+			w := pu.Msg(i, n)
+			libWrites = append(libWrites, w)
+			libStream = append(libStream, w...)
+		}
+		var cfg *gmtls.Config
+		var id gmref.Identity
+		if libIsClient {
+			cfg = &gmtls.Config{GMSupport: &gmtls.GMSupport{}, RootCAs: p.Roots, ServerName: tlsk.ServerName, Time: tlsk.FixedTime, Rand: wire.NewRand(65), CipherSuites: []uint16{suite}}
+			id = tlsk.ServerIdentity()
+		} else {
+			cfg = &gmtls.Config{GMSupport: &gmtls.GMSupport{}, Certificates: []gmtls.Certificate{p.Sign, p.Enc}, Time: tlsk.FixedTime, Rand: wire.NewRand(66), CipherSuites: []uint16{suite}}
+		}
+		for i, n := range sizes {
+			refStream = append(refStream, pu.Msg(5000+i, n)...)
+		}
+		data := func(q *gmref.Peer) error {
+			off := 0
+			for _, n := range sizes {
+				// one record per payload; a payload over 2^14 bytes must be split by any sender
+				for rest := n; rest > 0 || n == 0; {
+					k := rest
+					if k > 16384 {
+						k = 16384
+					}
+					if err := q.WriteRecord(gmref.RecApp, refStream[off:off+k]); err != nil {
+						return err
+					}
+					off += k
+					rest -= k
+					if n == 0 {
+						break
+					}
+				}
+			}
+			if err := q.ReadApp(len(libStream)); err != nil {
+				return err
+			}
+			return q.CloseNotify()
+		}
+		o := tlsk.RunLibVsRef(cfg, libIsClient, tlsk.App{Writes: libWrites, Expect: len(refStream)}, id, 67, func(q *gmref.Peer) { q.Suites = []uint16{suite} }, &gmref.Script{Data: data}, nil)
+		tag := fmt.Sprintf("library-client=%v suite=%04x: %d payload sizes 2^k-72..2^k+8 (k=9..14) in each direction", libIsClient, suite, len(sizes))
+		c.Add("executions", 1)
+		c.Add("transitions", int64(2*len(sizes)))
+		c.DistinctS("states", tag)
+		c.Sample(tag)
+		if o.Lib.Panic != nil || o.Ref.Panic != nil || o.LibStuck || o.Horizon {
+			c.Violate("reference-peer-sizes:crash-or-hang", fmt.Sprintf("[%s] %s", tag, o.Describe()), nil, tag)
+			return
+		}
+		peer := o.Ref.Peer
+		if !o.Lib.Complete || peer == nil || o.Ref.Res.Err != nil || !bytes.Equal(peer.Received, libStream) {
+			got := 0
+			if peer != nil {
+				got = len(peer.Received)
+			}
+			c.Violate(fmt.Sprintf("reference-peer-sizes:library-to-reference:%04x", suite), fmt.Sprintf("[%s] the reference peer authenticated and read %d of %d bytes the library wrote, then: %v", tag, got, len(libStream), o.Ref.Res.Err), nil, tag)
+		}
+		if !bytes.Equal(o.Lib.Read, refStream) {
+			c.Violate(fmt.Sprintf("reference-peer-sizes:reference-to-library:%04x", suite), fmt.Sprintf("[%s] the library read %d of %d bytes the reference peer sent (read error %v)", tag, len(o.Lib.Read), len(refStream), o.Lib.ReadErr), nil, tag)
+		}
+	}}
+}
